@@ -15,7 +15,8 @@ EXPLANATION = ("Checkpoint discipline: the checkpoint primitives themselves; a t
                "table, with the documented fast_acquire exemption analysed as its own configuration; delegation of the public wrappers; "
                "every anyio.itertools generator and functools.reduce pass a checkpoint on every path to exhaustion under two source models "
                "(A: synchronous sources, justified by the obligation on _IterableAsyncIterator; B: nothing yielded, arbitrary sources)."
-               " The fast_acquire exemption is opt-in: every parameter defaults to False, every call forwards the caller's own flag, the field stores the parameter.")
+               " The fast_acquire exemption is opt-in: every parameter defaults to False, every call forwards the caller's own flag, the field stores the parameter."
+               " `await future` passes through wait() before any exit; every `__anext__` of the package goes through receive() on every path.")
 NOT_DECIDED = "That the event loop actually ran other callbacks during a yield (asyncio), the uvloop / eager-task-factory configurations."
 
 ITER = "itertools.py"
